@@ -325,6 +325,8 @@ def main(tier, seed):
                           dict(kind='model', case={k: m[k] for k in m if k != 'prog'}, prog=m['prog'], coq_term=t[:5000]))
     if bad or logs:
         rep.violation('corr:uneval', 'correspondence corr.C05 could not be evaluated for %d cases' % bad, dict(kind='correspondence', name='corr.C05', log=logs[:3]), no_input=True)
+    import r9
+    r9.c05_access_while_off(rep, ap, rng, tier)
     return rep.finish()
 
 
